@@ -127,8 +127,10 @@ def main() -> None:
                     return "assign", ",".join(names)
                 return k, getattr(node, "name", "?")
 
+            # all or nothing: a walker whose private callbacks are named differently is not traced at all
+            origs = {attr: getattr(aw.ASTWalker, attr) for attr in ("_ASTWalker__enter", "_ASTWalker__leave")}
             for phase, attr in (("enter", "_ASTWalker__enter"), ("leave", "_ASTWalker__leave")):
-                orig = getattr(aw.ASTWalker, attr)
+                orig = origs[attr]
 
                 def wrapped(self, node, _orig=orig, _phase=phase):
                     if len(rec["walk"]) < 400000:
@@ -146,8 +148,14 @@ def main() -> None:
             import safeds_stubgen.api_analyzer  # noqa: F401
             from safeds_stubgen.stubs_generator import _stub_string_generator as sg
 
-            rec["todo"] = []
             G = sg.StubsStringGenerator
+            # all or nothing: a generator whose private helpers are named differently is not traced at all
+            needed = ("_create_class_string", "_create_function_string", "_create_property_function_string", "_create_class_attribute_string",
+                      "_create_class_method_string", "_create_enum_string", "_create_module_string", "create_reexport_module_strings", "_create_todo_msg")
+            missing = [nm for nm in needed if not hasattr(G, nm)]
+            if missing:
+                raise AttributeError("not traceable, missing: " + ", ".join(missing))
+            rec["todo"] = []
 
             def ev(*a):
                 if len(rec["todo"]) < 2000000:
